@@ -57,6 +57,19 @@ PieceHi(c, mT, mY) == Min2((mY + 1) * c.mbY - 1, ToY(c, THi(c, mT)))
 \* THi-TLo+1 long and starts ToY(TLo) % mbY inside source tile YStart
 PieceLen(c, mT, mY) == GetSize(mY, YStart(c, mT), YEnd(c, mT), c.mbY, THi(c, mT) - TLo(c, mT) + 1,
                                ToY(c, TLo(c, mT)) % c.mbY)
+\* where Update (redistribute.jdf) writes that piece inside target tile mT, as CORE_redistribute_update computes it
+\* (i_start_T / j_start_T; ghost radius R = 0): offset_row for the first piece (NW/N/NE rows), then
+\* offset_row + TL_row + (m_Y - m_Y_start - 1) * mb_Y_INNER for the bar / inner / south pieces
+MbTInner(c, mT) == GetSize(mT, TStart(c), TEnd(c), c.mbT, c.size, c.disT % c.mbT)
+SizeiT(c, mT) == (mT - TStart(c)) * c.mbT - (c.disT % c.mbT)
+CodeIStart(c, mT) == IF mT = TStart(c) THEN c.disY % c.mbY ELSE (SizeiT(c, mT) + c.disY) % c.mbY
+CodeYStart(c, mT) == IF mT = TStart(c) THEN c.disY \div c.mbY ELSE (SizeiT(c, mT) + c.disY) \div c.mbY
+CodeYEnd(c, mT) == IF mT = TStart(c) THEN (c.disY + MbTInner(c, mT) - 1) \div c.mbY
+                   ELSE (SizeiT(c, mT) + c.disY + MbTInner(c, mT) - 1) \div c.mbY
+TLRow(c, mT) == Min2(MbTInner(c, mT), c.mbY - CodeIStart(c, mT))
+OffsetRow(c, mT) == IF mT = TStart(c) THEN c.disT % c.mbT ELSE 0
+PlaceInT(c, mT, mY) == IF mY = CodeYStart(c, mT) THEN OffsetRow(c, mT)
+                       ELSE OffsetRow(c, mT) + TLRow(c, mT) + (mY - CodeYStart(c, mT) - 1) * c.mbY
 Pieces(c) == {<<mT, mY>> : mT \in TStart(c)..TEnd(c), mY \in 0..((c.disY + c.size) \div c.mbY + 1)} 
 RealPieces(c) == {p \in Pieces(c) : p[2] >= YStart(c, p[1]) /\ p[2] <= YEnd(c, p[1])}
 Covered(c, p) == PieceLo(c, p[1], p[2])..PieceHi(c, p[1], p[2])
@@ -73,7 +86,13 @@ NewGeneral == /\ c = NoCase
 NewReshuffle == /\ c = NoCase
                 /\ \E mb \in 1..MaxB, size \in 1..MaxSize, ty \in 0..MaxDis, tt \in 0..MaxDis :
                       c' = [mbY |-> mb, mbT |-> mb, size |-> size, disY |-> ty * mb, disT |-> tt * mb, path |-> "reshuffle"]
-Next == NewGeneral \/ NewReshuffle
+\* the same taskpool on the "few big target tiles gather many small source tiles" shapes (a target tile covers 4..5
+\* source tiles, so it has north / >= 2 inner / south pieces; the window spans up to three target tiles)
+NewGeneralWide == /\ c = NoCase
+                  /\ \E mbY \in 1..2, ratio \in 4..5, size \in 1..(3 * 2 * 5), disY \in 0..MaxDis, disT \in 0..(2 * 5 - 1) :
+                        /\ size <= 3 * mbY * ratio /\ disT < mbY * ratio
+                        /\ c' = [mbY |-> mbY, mbT |-> mbY * ratio, size |-> size, disY |-> disY, disT |-> disT, path |-> "general"]
+Next == NewGeneral \/ NewReshuffle \/ NewGeneralWide
 Spec == Init /\ [][Next]_c
 
 IsCase == c.mbY # 0
@@ -84,6 +103,13 @@ PiecesPartitionWindow == IsCase =>
 \* getsize() is the length of the overlap
 GetsizeIsOverlap == IsCase => \A p \in RealPieces(c) :
     PieceLen(c, p[1], p[2]) = PieceHi(c, p[1], p[2]) - PieceLo(c, p[1], p[2]) + 1
+\* the code's own source tile range of a target tile is the geometric one, and every piece is written in the target tile
+\* at the position of its first element (target coordinates of PieceLo, relative to the tile)
+PlacementIsExact == (IsCase /\ c.path = "general") => \A mT \in TStart(c)..TEnd(c) :
+    /\ MbTInner(c, mT) = THi(c, mT) - TLo(c, mT) + 1
+    /\ CodeYStart(c, mT) = YStart(c, mT) /\ CodeYEnd(c, mT) = YEnd(c, mT)
+    /\ \A mY \in YStart(c, mT)..YEnd(c, mT) :
+          mT * c.mbT + PlaceInT(c, mT, mY) = PieceLo(c, mT, mY) - c.disY + c.disT
 \* on the reshuffle path a target tile has exactly one source tile and pieces are whole tiles except the last
 ReshuffleWholeTiles == (IsCase /\ c.path = "reshuffle") => \A p \in RealPieces(c) :
     /\ YStart(c, p[1]) = YEnd(c, p[1])
